@@ -88,25 +88,33 @@ def held_mismatch(held, ro):
     return None
 
 
+def _read_all(ro):
+    v = {'ro_slug': ro.ro_slug}
+    stories = ro.stories
+    sv = []
+    for s in stories:
+        sv.append({'id': s.id, 'slug': s.slug, 'duration': eighths(s.duration), 'offset': eighths(s.offset),
+                   'start': ticks(s.start_time), 'stop': ticks(s.end_time), 'script': list(s.script),
+                   'body': body_view(s.body), 'items': [item_view(i) for i in s.items]})
+    v['stories'] = sv
+    v['start'] = ticks(ro.start_time)
+    v['stop'] = ticks(ro.end_time)
+    v['duration'] = eighths(ro.duration)
+    v['completed'] = bool(ro.completed)
+    v['script'] = list(ro.script)
+    v['body'] = body_view(ro.body)
+    return v
+
+
 def read_view(ro):
     """Every documented read accessor of a live RunningOrder -> {'view': …} or {'crash': name}."""
     from . import impl
+    import warnings
+    impl.apply_cfg(impl.cfg_for(str(len(ro.xml)) + (ro.xml.findtext('messageID') or '') + str(sum(1 for _ in ro.xml.iter()))))
     try:
-        v = {'ro_slug': ro.ro_slug}
-        stories = ro.stories
-        sv = []
-        for s in stories:
-            sv.append({'id': s.id, 'slug': s.slug, 'duration': eighths(s.duration), 'offset': eighths(s.offset),
-                       'start': ticks(s.start_time), 'stop': ticks(s.end_time), 'script': list(s.script),
-                       'body': body_view(s.body), 'items': [item_view(i) for i in s.items]})
-        v['stories'] = sv
-        v['start'] = ticks(ro.start_time)
-        v['stop'] = ticks(ro.end_time)
-        v['duration'] = eighths(ro.duration)
-        v['completed'] = bool(ro.completed)
-        v['script'] = list(ro.script)
-        v['body'] = body_view(ro.body)
-        return {'view': v}
+        with warnings.catch_warnings():
+            warnings.filterwarnings('error', category=DeprecationWarning)     # see impl.add
+            return {'view': _read_all(ro)}
     except Unrepresentable:
         raise
     except Exception as e:  # noqa: BLE001
